@@ -113,16 +113,21 @@ theorem takeStringScalar_weak {s : List Char}
   unfold takeStringScalar at h
   weak_ev <;> weak_splits
 
-theorem deserStr_weak {s : List Char}
-    (h : deserStr (.replay buf i ref) = .ok s c') : Stays buf ref i 0 c' := by
-  unfold deserStr at h
-  weak_ev <;> weak_splits
-
 theorem deserString_weak {v : Val}
     (h : deserString cfg (.replay buf i ref) = .ok v c') : Stays buf ref i 0 c' := by
   unfold deserString at h
   weak_ev <;> weak_splits
   all_goals (cases h; exact takeStringScalar_weak (by assumption))
+
+theorem deserStr_weak {s : List Char}
+    (h : deserStr cfg (.replay buf i ref) = .ok s c') : Stays buf ref i 0 c' := by
+  unfold deserStr at h
+  weak_ev
+  all_goals try contradiction
+  split at h
+  · contradiction
+  · cases h; exact deserString_weak (by assumption)
+  · contradiction
 
 theorem deserAnyScalar_weak {v : Val} {s : List Char} {tag : Nat} {st : Style} {l : Loc}
     (hb : ∃ e, buf[i]? = some e ∧ Ev.delta e = 0)
